@@ -195,7 +195,7 @@ Definition local_heap (addr : N) : W bytes :=
       _ <<- add_ext addr (addr + hsz) K_lheap_hdr;;
       _ <<- add_ext (lh_addr h) (lh_addr h + lh_size h) K_lheap_data;;
       seg <<- wl (rd (lh_addr h) (lh_size h));;
-      _ <<- wguard (lheap_free_ok (S (length seg)) (cL c) seg (lh_free h));;
+      _ <<- wguardc 60 (lheap_free_ok (S (length seg)) (cL c) seg (lh_free h));;
       wret seg
   | _ => wfail 17
   end.
@@ -228,8 +228,8 @@ Definition btree1_node (ntype : N) (nd : nat) (K : N) (kind : N) (addr : N) (top
       _ <<- add_ext addr (addr + used) kind;;
       _ <<- add_stags tg;;
       _ <<- (if n <=? 2 * K then add_soft addr (addr + full) kind X_btree1_node_truncated else wret tt);;
-      _ <<- wguard (if top then (b1_left b =? undefO) && (b1_right b =? undefO) else true);;
-      _ <<- wguard (match level with Some l => b1_level b =? l | None => true end);;
+      _ <<- wguardc 61 (if top then (b1_left b =? undefO) && (b1_right b =? undefO) else true);;
+      _ <<- wguardc 62 (match level with Some l => b1_level b =? l | None => true end);;
       wret b
   | _ => wfail 19
   end.
@@ -252,7 +252,7 @@ Fixpoint gbtree (seg : bytes) (fuel : nat) : N -> bool -> option N -> W (list ge
 Definition cbtree_body (nd : nat) (rec : N -> bool -> option N -> W (list chunk_rec)) (addr : N) (top : bool) (level : option N)
   : W (list chunk_rec) :=
   b <<- btree1_node 1 nd (c_istoreK c) K_btree1_chunk addr top level;;
-  _ <<- wguard (increasing (map (skipn 2) (b1_keys b)));;
+  _ <<- wguardc 63 (increasing (map (skipn 2) (b1_keys b)));;
   if 0 <? b1_level b then
     r <<- wmapM (fun child => rec child false (Some (b1_level b - 1))) (b1_children b);;
     wret (concat r)
@@ -283,13 +283,13 @@ Definition fheap_walk (addr : N) : W (fheap_spec * list block_rec) :=
       _ <<- wguardc 23 ((fh_hugebt h =? 0) || (fh_hugebt h =? undefO));;
       let offsz := (fh_maxheap h + 7) / 8 in
       let lensz := nbytes_for (N.min (fh_maxdirect h) (fh_maxobj h)) in
-      _ <<- wguard (1 + offsz + lensz <=? fh_idlen h);;
-      blocks <<- (if fh_root h =? undefO then _ <<- wguard (fh_nman h =? 0);; wret []
+      _ <<- wguardc 64 (1 + offsz + lensz <=? fh_idlen h);;
+      blocks <<- (if fh_root h =? undefO then _ <<- wguardc 65 (fh_nman h =? 0);; wret []
                   else if fh_currows h =? 0 then
                     pre <<- dblock h addr offsz (fh_root h) 0 (fh_start h);;
                     wret [(0, fh_start h, fh_root h, pre)]
                   else wfail 24);;
-      _ <<- wguard (fh_manalloc h =? sumN (map (fun b : block_rec => snd (fst (fst b))) blocks));;
+      _ <<- wguardc 66 (fh_manalloc h =? sumN (map (fun b : block_rec => snd (fst (fst b))) blocks));;
       wret (h, blocks)
   | _ => wfail 26
   end.
@@ -354,15 +354,15 @@ Definition dense_attrs (d : bytes) : W (list bytes) :=
             | None => wret tt
             end;;
       recs <<- (if b2_type bt =? 8 then
-                  _ <<- wguard (b2_recsize bt =? fh_idlen h + 9);;
+                  _ <<- wguardc 67 (b2_recsize bt =? fh_idlen h + 9);;
                   wret (map (fun r => (unle (skipn (length r - 4) r), firstn (N.to_nat (fh_idlen h)) r)) raw)
                 else if b2_type bt =? 5 then
                   _ <<- xdev X_btree2_attr_type_5;;
-                  _ <<- wguard (b2_recsize bt =? 11);;
+                  _ <<- wguardc 68 (b2_recsize bt =? 11);;
                   wret (map (fun r => (unle (firstn 4 r), firstn 7 (skipn 4 r))) raw)
-                else werr);;
-      _ <<- wguard (lenN recs =? fh_nman h);;
-      _ <<- wguard (nondecreasingN (map fst recs));;
+                else wfail 69);;
+      _ <<- wguardc 70 (lenN recs =? fh_nman h);;
+      _ <<- wguardc 71 (nondecreasingN (map fst recs));;
       match dense_mode h blocks recs false with
       | Ok l => _ <<- add_stags (concat (map snd l));; wret (map fst l)
       | _ =>
@@ -403,20 +403,20 @@ Definition link_mode (h : fheap_spec) (blocks : list block_rec) (recs : list (N 
 (* -> (the links, true when they are stored in the private layout) *)
 Definition dense_links (pad : bool) (d : bytes) : W (list link_spec * bool) :=
   li <<- wlc 40 (spec_dec_linkinfo (cO c) pad d);;
-  if lis_heap li =? undefO then _ <<- wguard (lis_btname li =? undefO);; wret ([], false)
+  if lis_heap li =? undefO then _ <<- wguardc 72 (lis_btname li =? undefO);; wret ([], false)
   else
     '(h, blocks) <<- fheap_walk (lis_heap li);;
     '(bt, raw) <<- btree2_walk (lis_btname li);;
-    _ <<- wguard ((b2_type bt =? 5) && (b2_recsize bt =? 11));;
-    _ <<- (if fh_idlen h =? 7 then wret tt else _ <<- wguard (fh_idlen h =? 8);; xdev X_btree2_link_id_truncated);;
+    _ <<- wguardc 73 ((b2_type bt =? 5) && (b2_recsize bt =? 11));;
+    _ <<- (if fh_idlen h =? 7 then wret tt else _ <<- wguardc 74 (fh_idlen h =? 8);; xdev X_btree2_link_id_truncated);;
     _ <<- match lis_btorder li with
           | Some bo => if bo =? undefO then wret tt
                        else '(bt6, raw6) <<- btree2_walk bo;; wguardc 22 ((b2_type bt6 =? 6) && (lenN raw6 =? lenN raw))
           | None => wret tt
           end;;
     let recs := map (fun r => (unle (firstn 4 r), firstn 7 (skipn 4 r))) raw in
-    _ <<- wguard (lenN recs =? fh_nman h);;
-    _ <<- wguard (nondecreasingN (map fst recs));;
+    _ <<- wguardc 75 (lenN recs =? fh_nman h);;
+    _ <<- wguardc 76 (nondecreasingN (map fst recs));;
     match link_mode h blocks recs false false with
     | Ok l => _ <<- add_stags (concat (map snd l));; wret (map fst l, false)
     | _ =>
@@ -445,23 +445,23 @@ Definition dataset_data (cb : nat -> N -> bool -> option N -> W (list chunk_rec)
   | L4Chunked fl ldims idx a =>
       (* version 4 chunk indexes: the single chunk and the implicit index are followed *)
       let rank := length dims in
-      _ <<- wguard ((length ldims =? S rank)%nat && (lastN ldims =? esz));;
+      _ <<- wguardc 77 ((length ldims =? S rank)%nat && (lastN ldims =? esz));;
       let cdims := removelast ldims in
       let csize := prodN cdims * esz in
       match idx with
       | CISingle fz =>
-          _ <<- wguard (match fz with Some _ => filtered | None => true end);;
+          _ <<- wguardc 78 (match fz with Some _ => filtered | None => true end);;
           if a =? undefO then wret tt
           else
             let nbytes := match fz with Some (sz, _) => sz | None => csize end in
-            _ <<- wguard (0 <? nbytes);;
+            _ <<- wguardc 79 (0 <? nbytes);;
             add_ext a (a + nbytes) K_chunk
       | CIImplicit =>
-          _ <<- wguard (negb filtered);;
+          _ <<- wguardc 80 (negb filtered);;
           if a =? undefO then wret tt
           else
             let nchunks := prodN (map (fun p : N * N => (fst p + snd p - 1) / snd p) (combine dims cdims)) in
-            _ <<- wguard (0 <? nchunks * csize);;
+            _ <<- wguardc 81 (0 <? nchunks * csize);;
             add_ext a (a + nchunks * csize) K_chunk
       | CIFixedArray _ => wfail 48
       | CIExtArray _ => wfail 49
@@ -469,18 +469,18 @@ Definition dataset_data (cb : nat -> N -> bool -> option N -> W (list chunk_rec)
       end
   | L4Plain lay =>
   match lay with
-  | LyCompact data => wguard (blen data =? total)
+  | LyCompact data => wguardc 82 (blen data =? total)
   | LyContiguous a sz =>
-      _ <<- wguard (negb filtered);;
+      _ <<- wguardc 83 (negb filtered);;
       if a =? undefO then wret tt
-      else _ <<- wguard (sz =? total);; if 0 <? total then add_ext a (a + total) K_contiguous else wret tt
+      else _ <<- wguardc 84 (sz =? total);; if 0 <? total then add_ext a (a + total) K_contiguous else wret tt
   | LyChunked a ldims =>
       let rank := length dims in
       let nd := length ldims in
-      cdims <<- (if (nd =? S rank)%nat then _ <<- wguard (lastN ldims =? esz);; wret (removelast ldims)
+      cdims <<- (if (nd =? S rank)%nat then _ <<- wguardc 85 (lastN ldims =? esz);; wret (removelast ldims)
                  else if (nd =? rank)%nat then _ <<- sdev T_chunk_dims_no_elem_dim;; wret ldims
-                 else werr);;
-      _ <<- wguard (forallb (fun d => 0 <? d) cdims);;
+                 else wfail 86);;
+      _ <<- wguardc 87 (forallb (fun d => 0 <? d) cdims);;
       if a =? undefO then wret tt
       else if a =? 0 then sdev T_chunk_btree_addr_0
       else
@@ -488,21 +488,21 @@ Definition dataset_data (cb : nat -> N -> bool -> option N -> W (list chunk_rec)
         let csize := prodN cdims * esz in
         wforM (fun ch : chunk_rec =>
                  let '(nbytes, mask, offs, caddr) := ch in
-                 _ <<- wguard (if (nd =? S rank)%nat then lastN offs =? 0 else true);;
-                 _ <<- wguard (forall2b (fun o d => o mod d =? 0) (firstn rank offs) cdims);;
-                 _ <<- wguard (0 <? nbytes);;
+                 _ <<- wguardc 88 (if (nd =? S rank)%nat then lastN offs =? 0 else true);;
+                 _ <<- wguardc 89 (forall2b (fun o d => o mod d =? 0) (firstn rank offs) cdims);;
+                 _ <<- wguardc 90 (0 <? nbytes);;
                  _ <<- add_ext caddr (caddr + nbytes) K_chunk;;
                  (* the decoded size of a filtered chunk is not checked: deflate is not modelled *)
-                 if filtered then wret tt else wguard ((mask =? 0) && (nbytes =? csize))) chunks
+                 if filtered then wret tt else wguardc 91 ((mask =? 0) && (nbytes =? csize))) chunks
   end
   end.
 
 (* the data layout message in any of its versions; versions 1 and 2 need the element size [esz] of the datatype *)
-Definition dec_layout_any (pad : bool) (esz : N) (lyb : bytes) : outcome layout4_spec :=
+Definition dec_layout_any (pad : bool) (rank : nat) (esz : N) (lyb : bytes) : outcome layout4_spec :=
   match lyb with
   | 3 :: _ => l <- spec_dec_layout (cO c) (cL c) pad lyb;; Ok (L4Plain l)
   | 4 :: _ => spec_dec_layout4 (cO c) (cL c) pad lyb
-  | _ => l <- spec_dec_layout12 (cO c) esz pad lyb;; Ok (L4Plain l)
+  | _ => l <- spec_dec_layout12 (cO c) rank esz pad lyb;; Ok (L4Plain l)
   end.
 
 
@@ -539,13 +539,13 @@ Definition obj_body (fuel : nat) (rec : N -> bytes -> W unit) (addr : N) (path :
   (* attributes: compact, then dense *)
   cnames <<- wmapM (fun m => '(a, tg) <<- wlc 37 (dec_attribute pad (ms_data m));; _ <<- add_stags tg;; wret (as_name a))
                    (msgs_of 12 ms);;
-  _ <<- (if has_msg 15 ms then _ <<- sdev T_attrinfo_type_0x0f;; wguard (negb (has_msg 21 ms)) else wret tt);;
+  _ <<- (if has_msg 15 ms then _ <<- sdev T_attrinfo_type_0x0f;; wguardc 92 (negb (has_msg 21 ms)) else wret tt);;
   dnames <<- match (if has_msg 15 ms then first_of 15 ms else first_of 21 ms) with
              | Some d => dense_attrs d
              | None => wret []
              end;;
   let names := cnames ++ dnames in
-  _ <<- wguard (nodupb names);;
+  _ <<- wguardc 93 (nodupb names);;
   match first_of 17 ms with
   | Some d =>
       (* a symbol-table group *)
@@ -553,7 +553,7 @@ Definition obj_body (fuel : nat) (rec : N -> bytes -> W unit) (addr : N) (path :
       _ <<- add_stab addr bt hp;;
       seg <<- local_heap hp;;
       ents <<- gbtree seg fuel bt true None;;
-      _ <<- wguard (nodupb (map ge_name ents) && forallb (fun e => negb (length (ge_name e) =? 0)%nat) ents);;
+      _ <<- wguardc 94 (nodupb (map ge_name ents) && forallb (fun e => negb (length (ge_name e) =? 0)%nat) ents);;
       (* symbolic link entries (cache type 2): the link value is a string in the local heap *)
       _ <<- wlc 21 (omapM (fun e => if se_cache (ge_e e) =? 2 then heap_str seg (se_link_off (ge_e e)) else Ok []) ents);;
       _ <<- add_sum {| os_addr := addr; os_path := path; os_kind := 1; os_dims := []; os_dtclass := 0; os_dtsize := 0;
@@ -569,8 +569,8 @@ Definition obj_body (fuel : nat) (rec : N -> bytes -> W unit) (addr : N) (path :
                  (* the cached B-tree / heap addresses equal the child's symbol table message *)
                  stab <<- wget (fun r => find (fun p => fst p =? child) (r_stab r));;
                  match stab with
-                 | Some (_, (b, h)) => wguard ((b =? se_btree (ge_e e)) && (h =? se_heap (ge_e e)))
-                 | None => werr
+                 | Some (_, (b, h)) => wguardc 95 ((b =? se_btree (ge_e e)) && (h =? se_heap (ge_e e)))
+                 | None => wfail 96
                  end
                else wret tt) ents
   | None =>
@@ -578,10 +578,10 @@ Definition obj_body (fuel : nat) (rec : N -> bytes -> W unit) (addr : N) (path :
       (* a new-style group: links in link messages (compact) or in a fractal heap (dense), never both *)
       clinks <<- wmapM (fun m => '(l, tg) <<- wlc 39 (spec_dec_link stol (cO c) pad (ms_data m));; _ <<- add_stags tg;; wret l) (msgs_of 6 ms);;
       '(dlinks, priv) <<- match first_of 2 ms with Some d => dense_links pad d | None => wret ([], false) end;;
-      _ <<- wguard (match clinks, dlinks with _ :: _, _ :: _ => false | _, _ => true end);;
+      _ <<- wguardc 97 (match clinks, dlinks with _ :: _, _ :: _ => false | _, _ => true end);;
       let links := clinks ++ dlinks in
-      _ <<- wguard (nodupb (map ls_name links));;
-      _ <<- wguard (negb (has_msg 8 ms) && negb (has_msg 3 ms));;
+      _ <<- wguardc 98 (nodupb (map ls_name links));;
+      _ <<- wguardc 99 (negb (has_msg 8 ms) && negb (has_msg 3 ms));;
       (* a group has no dataspace; the writer's dense groups carry a scalar version 1 dataspace message (listed deviation) *)
       _ <<- match first_of 1 ms with
             | Some dsb => _ <<- xdev X_group_dataspace_msg;; ds <<- wlc 32 (spec_dec_dataspace (cL c) pad dsb);; wret tt
@@ -606,7 +606,7 @@ Definition obj_body (fuel : nat) (rec : N -> bytes -> W unit) (addr : N) (path :
           '(dt, tg) <<- wlc 31 dto;;
           _ <<- add_stags tg;;
           ds <<- wlc 32 (spec_dec_dataspace (cL c) pad dsb);;
-          lay <<- wlc 33 (dec_layout_any pad (dtype_size dt) lyb);;
+          lay <<- wlc 33 (dec_layout_any pad (length (dss_dims ds)) (dtype_size dt) lyb);;
           filtered <<- match first_of 11 ms with
                        | Some pb =>
                            '(fs, tg) <<- wlc 34 (spec_dec_pipeline stol pad pb);;
@@ -642,13 +642,14 @@ Fixpoint walk_obj (fuel : nat) : N -> bytes -> W unit :=
 
 (* ------------------------------------------------------------------ the cross-structure clauses after the traversal *)
 Definition finish (sb : superblock_spec) : W unit :=
-  (* versions 0, 1: the root symbol table entry caches the root group's B-tree and heap addresses *)
+  (* versions 0, 1: the root symbol table entry, when its cache type is 1, caches the root group's B-tree and heap addresses
+     (cache type 0, nothing cached, is what the reference library writes when it is not sure; 2 is for symbolic links) *)
   _ <<- match sbs_root_entry sb with
         | Some e =>
             stab <<- wget (fun r => find (fun p => fst p =? sbs_root sb) (r_stab r));;
             match stab with
-            | Some (_, (b, h)) => wguard ((se_cache e =? 1) && (b =? se_btree e) && (h =? se_heap e))
-            | None => werr
+            | Some (_, (b, h)) => wguardc 100 ((se_cache e =? 0) || ((se_cache e =? 1) && (b =? se_btree e) && (h =? se_heap e)))
+            | None => wguardc 101 (se_cache e =? 0)            (* a new-style root group: nothing to cache *)
             end
         | None => wret tt
         end;;
@@ -670,7 +671,7 @@ Definition finish (sb : superblock_spec) : W unit :=
                         (snd p)) soft;;
   (* the recorded end-of-file address *)
   if existsb (fun x : xext => sbs_eof sb <? snd (fst x)) exts then xdev X_sb_eof_stale
-  else wguard (sbs_eof sb <=? flen).
+  else wguardc 102 (sbs_eof sb <=? flen).
 
 End Ctx.
 
